@@ -25,10 +25,4 @@ mod verif_demo_c14_xls_ptgref {
         // rowRelative = 0, colRelative = 1 encodes B$3; the code prints the `$` on the column
         assert_eq!(pf(&[0x44, 2, 0, 1, 0x40]).unwrap(), "$B3");
     }
-    #[test]
-    fn verif_demo_xls_ptgref_column_ge_26_mislettered() {
-        // consequence of the push_column defect (finding colname): AA1 -> A1, IV1 -> V1
-        assert_eq!(pf(&[0x44, 0, 0, 26, 0xC0]).unwrap(), "A1");
-        assert_eq!(pf(&[0x44, 0, 0, 255, 0xC0]).unwrap(), "V1");
-    }
 }
